@@ -9,7 +9,7 @@
 #define VERIF_STRCAP 32
 #endif
 typedef struct vstr { char *p; int len; } vstr;
-#define VSTR_NPOS ((size_t)-1)
+#define VSTR_NPOS (~(size_t)0)
 static int verif_thrown, verif_thrown_other;
 static size_t verif_ghost_idx, verif_ghost_idx2, verif_ghost_idx3, verif_ghost_idx4;
 static inline int verif_strlen(const char *s) { return (int)std::strlen(s); }
@@ -20,3 +20,6 @@ using std::isnan; using std::isinf; using std::isfinite; using std::signbit; usi
 #define VERIF_NAN (std::nan(""))
 #define VERIF_INF (HUGE_VAL)
 #define _Bool bool
+#define VERIF_SAME_D(a, b) (((a) == (b) && std::signbit(a) == std::signbit(b)) || (std::isnan(a) && std::isnan(b)))
+#define VERIF_UP(c) ((char)verif_toupper(c))
+static inline int verif_index_of(const char *s, char c) { for (int i = 0; s[i] != 0; ++i) if (s[i] == c) return i; return -1; }
